@@ -45,7 +45,11 @@ func randMetrics(r *rng) *afm.Metrics {
 	codes := r.perm(256)
 	for i, n := range names {
 		x0, y0 := float64(r.rangeInt(-500, 500)), float64(r.rangeInt(-500, 500))
-		g := &afm.GlyphInfo{WidthX: float64(r.rangeInt(0, 2000)), BBox: rect.Rect{LLx: x0, LLy: y0, URx: x0 + float64(r.rangeInt(0, 1500)), URy: y0 + float64(r.rangeInt(0, 1500))}}
+		wxv := float64(r.rangeInt(0, 2000))
+		if r.chance(1, 15) {
+			wxv = pick(r, []float64{-32768, -32767, 32767, -1, 0}) // the ends of the 16-bit range the reader stores widths in
+		}
+		g := &afm.GlyphInfo{WidthX: wxv, BBox: rect.Rect{LLx: x0, LLy: y0, URx: x0 + float64(r.rangeInt(0, 1500)), URy: y0 + float64(r.rangeInt(0, 1500))}}
 		for k := r.intn(4); k > 0 && len(names) > 1; k-- {
 			if g.Ligatures == nil {
 				g.Ligatures = map[string]string{}
@@ -58,7 +62,11 @@ func randMetrics(r *rng) *afm.Metrics {
 		}
 	}
 	for k := r.intn(6); k > 0 && len(names) > 0; k-- {
-		m.Kern = append(m.Kern, &afm.KernPair{Left: pick(r, names), Right: pick(r, names), Adjust: funit.Int16(r.rangeInt(-200, 200))})
+		adj := r.rangeInt(-200, 200)
+		if r.chance(1, 6) {
+			adj = pick(r, []int{-32768, -32767, 32767, 32766, 0})
+		}
+		m.Kern = append(m.Kern, &afm.KernPair{Left: pick(r, names), Right: pick(r, names), Adjust: funit.Int16(adj)})
 	}
 	return m
 }
